@@ -15,6 +15,8 @@ SRC = {
     "lambda": "{pad}import os\n\n\ndef _log(v, x):\n    with open({log!r}, 'a') as h:\n        h.write('%d %r\\n' % (v, x))\n\n\nf = lambda x: (_log({v}, x), ['v{v}', x])[1]\n",
 }
 SRC["main"] = SRC["module"]
+SRC["inplace"] = SRC["module"]      # module-level function of ONE file that every definition rewrites (edit in place + reload)
+SRC["nosource"] = SRC["module"]     # __main__ function whose source cannot be read back (python -c / stdin / exec)
 # the two versions differ ONLY in the indentation of the last assignment (inside / after the empty loop)
 SRC["indent"] = ("{pad}import os\n\n\ndef f(x):\n    with open({log!r}, 'a') as h:\n        h.write('%r\\n' % (x,))\n"
                  "    r = ['v1', x]\n    for _ in ():\n        pass\n{ind}r = ['v2', x]\n    return r\n")
@@ -39,6 +41,11 @@ def main():
         ndef[0] += 1
         if kind == "main":
             path = os.path.join(work, "script.py")
+        elif kind == "inplace":
+            d = os.path.join(work, "inplace"); os.makedirs(d, exist_ok=True)
+            path = os.path.join(d, "cachedmod.py")
+        elif kind == "nosource":
+            return "<string>", SRC[kind].format(pad="", log=log, v=v, ind="")
         else:
             d = os.path.join(work, "v%d_s%d" % (v, shift)); os.makedirs(d, exist_ok=True)
             path = os.path.join(d, "cachedmod.py")
@@ -49,7 +56,8 @@ def main():
 
     def define(v, shift=0):
         path, src = source_file(v, shift)
-        ns = {"__name__": "__main__" if kind == "main" else "cachedmod", "__file__": path}
+        ns = {"__name__": "__main__" if kind in ("main", "nosource") else "cachedmod", "__file__": path}
+        if kind == "nosource": del ns["__file__"]
         exec(compile(src, path, "exec"), ns)
         return ns["f"]
 
@@ -63,7 +71,7 @@ def main():
             elif op["op"] == "swap":
                 if op["v"] not in codes:
                     codes[op["v"]] = define(op["v"], 0).__code__
-                elif kind == "main":
+                elif kind in ("main", "inplace"):
                     # one script path for every version: the text on disk must be the one the swapped-in code object was
                     # compiled from (source look-up goes through the file), as when the user edits the script and reloads
                     source_file(op["v"], 0)
